@@ -2,6 +2,7 @@
 import ast
 
 from ..affine import Env, Form
+from ..cfg import cfg_of
 from ..model import norm, walk_own
 from ..paths import summarize
 from ..rules_own import purity_rule
@@ -182,7 +183,16 @@ def small_functions(prog, rep):
     ok = t in (f"return timedelta(seconds=sum((event.duration.total_seconds() for event in {fi.params[0]})))", f"return timedelta(seconds=sum(event.duration.total_seconds() for event in {fi.params[0]}))", f"return timedelta(seconds=sum([event.duration.total_seconds() for event in {fi.params[0]}]))")
     rep.check(ok, "SHAPE", fi.short, "sum", "timedelta(seconds=sum(e.duration.total_seconds() for e in events))", f"`{t}` does not sum every event's duration", fi.loc())
     fi = prog.func("filter_keyvals")
+    from ..rules_flow import early_returns
+
     rets = [n for n in walk_own(fi.node) if isinstance(n, ast.Return)]
+    # a shortcut may only depend on the event list being empty (with no values to match, the excluded half is everything)
+    g_ = cfg_of(fi)
+    for r in [x for x in rets if isinstance(x.value, ast.List) and not x.value.elts or isinstance(x.value, ast.Name)]:
+        from ..rules_flow import says_small
+
+        reach = g_.reach_filtered(g_.entry, lambda u, v, lab: not says_small(lab, [fi.params[0]], 1))
+        rep.check(g_.node_of(r) not in reach, "SHAPE", fi.short, f"shortcut at line {r.lineno}", "only for an empty event list", f"`{norm(r)}` is returned on a path that does not establish that the event list is empty (e.g. an empty value list): for exclude=True the answer must then be every event, so the two halves are no longer complementary", fi.loc(r))
     comps = [r.value for r in rets if isinstance(r.value, ast.ListComp)]
     ok = False
     why = "not two comprehensions"
@@ -253,6 +263,8 @@ VARIANTS = [
     ("B exclude not complementary", FK, "return [e for e in events if not predicate(e)]", "return [e for e in events if key not in e.data]", "SHAPE"),
     ("B chunking stops at a falsy value", CH, "        if key not in event.data:\n            break", "        if not event.data.get(key):\n            break", "SUM"),
     ("B chunking skips events with a None value", CH, "        if key not in event.data:\n            break", "        if key not in event.data:\n            break\n        if event.data[key] is None:\n            continue", "SUM"),
+    ("B nothing-can-match shortcut also taken for exclude", FK, "    def predicate(event):", "    if not events or not vals:\n        return []\n\n    def predicate(event):", "SHAPE"),
+    ("OK shortcut for an empty event list", FK, "    def predicate(event):", "    if not events:\n        return []\n\n    def predicate(event):", "ok"),
     ("OK positional key with else branch", M, "                composite_key = composite_key + ((key, val),)\n", "                composite_key = composite_key + (val,)\n            else:\n                composite_key = composite_key + (None,)\n", "ok"),
     ("OK augmented key extension", M, "composite_key = composite_key + ((key, val),)", "composite_key += ((key, val),)", "ok"),
 ]
